@@ -40,7 +40,7 @@ def _is_ref(c, name):
 
 
 def _only(flags, *allowed):
-    core = [f for f in flags if f in ("content", "post", "wrap", "nontensor", "tc-raises-only", "td-raises-only")]
+    core = [f for f in flags if f in ("content", "post", "wrap", "nontensor", "tc-raises-only", "td-raises-only", "kind")]
     return bool(core) and all(f in allowed for f in core)
 
 
@@ -112,6 +112,10 @@ PATTERNS = [
         and _tc_exc(a) == "RuntimeError" and "json" in _msg(a) and b.get("status") == "ok"),
     ("D177-non-tensor-stack-result-wrapped-in-the-class", lambda c, a, b, f: c["mode"] == "call" and not c.get("embed")
         and "nontensor-wrapped" in f and a.get("status") == "ok" and _only(f, "wrap") and '"stack"' in json.dumps(_res(b))),
+    ("D178-cat-of-lazy-tensorclasses-densifies", lambda c, a, b, f: c["name"] == "cat" and not c.get("embed")
+        and c["layout"] in ("lazy", "lazyhet") and a.get("status") == "ok" and _only(f, "kind")),
+    ("D179-get_at-indexes-the-unwrapped-value", lambda c, a, b, f: c["name"] == "get_at" and c["mode"] == "call" and not c.get("embed")
+        and a.get("status") == "ok" and _only(f, "content") and isinstance(_res(b), list) and _res(b)[0] == "NT"),
     ("D175-indices-reductions-drop-nested-class", lambda c, a, b, f: c["name"] in ("max", "min", "cummax", "cummin") and c.get("embed") == "outer"
         and a.get("status") == "ok" and _only(f, "wrap")),
 ]
@@ -138,7 +142,7 @@ def classify(case, o_tc, o_td, flags, probs):
                 return {"pattern": pid}
         except Exception:  # noqa: BLE001 -- a predicate that cannot be evaluated does not match
             continue
-    core = sorted(f for f in flags if f in ("content", "post", "wrap", "nontensor", "tc-raises-only", "td-raises-only"))
+    core = sorted(f for f in flags if f in ("content", "post", "wrap", "nontensor", "tc-raises-only", "td-raises-only", "kind"))
     return {"pattern": "other", "stream": case.get("stream"), "call": case["name"], "kind": "+".join(core),
             "tc_exception": _tc_exc(o_tc)}
 
@@ -173,7 +177,9 @@ def method_cases(cname, layout, names, nvar, rng, unsynth, embed=None):
             continue
         got = False
         seen = set()
-        for v in range(nvar):
+        sp = Lb.special(n, cname, layout)
+        nv = max(nvar, min(len(sp), 4 if nvar == 1 else 7)) if isinstance(sp, list) else nvar   # curated variants are all used
+        for v in range(nv):
             a, k, how = Lb.synth(n, cname, layout, v, rng)
             if a is None:
                 if how.startswith("recipe:"):
